@@ -510,26 +510,28 @@ def assemble(unit_path, canary=None):
     log = Woven()
     with open(unit_path, encoding="utf-8") as f:
         lines = f.read().split("\n")
-    # //@include <file relative to units/>  (textual, one level)
-    exp = []
-    for ln in lines:
-        if ln.strip().startswith("//@include"):
-            inc_args = ln.strip()[len("//@include"):].split()
-            inc = os.path.join(os.path.dirname(os.path.dirname(os.path.abspath(__file__))), "units", inc_args[0])
-            with open(inc, encoding="utf-8") as f:
-                inc_lines = f.read().split("\n")
-            if "assumed" in inc_args[1:]:
-                # `//@include <file> assumed`: the contracts of the file are ASSUMED here (bodies dropped); the unit that
-                # includes the same file without `assumed` proves the very same contract text on the real bodies
-                marked = []
-                for il in inc_lines:
-                    marked.append(il)
-                    if il.strip().startswith("//@item"):
-                        marked.append("//@opt body=assumed")
-                inc_lines = marked
-            exp.extend(inc_lines)
-        else:
-            exp.append(ln)
+    # //@include <file relative to units/> [assumed]  (textual, nested includes allowed; `assumed` is inherited)
+    units_root = os.path.join(os.path.dirname(os.path.dirname(os.path.abspath(__file__))), "units")
+
+    def expand(src_lines, assumed, depth):
+        if depth > 6:
+            raise UnitError("%s: includes nested too deeply" % unit_path)
+        out_l = []
+        for ln in src_lines:
+            if ln.strip().startswith("//@include"):
+                inc_args = ln.strip()[len("//@include"):].split()
+                with open(os.path.join(units_root, inc_args[0]), encoding="utf-8") as f:
+                    inc_lines = f.read().split("\n")
+                # `//@include <file> assumed`: the contracts of the file are ASSUMED here (bodies dropped); the unit
+                # that includes the same file without `assumed` proves the very same contract text on the real bodies
+                out_l.extend(expand(inc_lines, assumed or "assumed" in inc_args[1:], depth + 1))
+            else:
+                out_l.append(ln)
+                if assumed and ln.strip().startswith("//@item"):
+                    out_l.append("//@opt body=assumed")
+        return out_l
+
+    exp = expand(lines, False, 0)
     lines = exp
     if canary is not None:
         # a canary replaces one contract clause by a wrong one (after include expansion, so shared preludes count)
